@@ -1,6 +1,7 @@
 (* Model of the COMMIT BOOKKEEPING of mimalloc under a failure oracle (property C07).  No proofs in this file.
 
-   C sources modelled (as repaired by c78a4f5 and 68720bb), at the granularity of one segment slice
+   C sources modelled (as repaired by c78a4f5, 68720bb and the repair of mi_segments_page_alloc that frees an unused
+   fresh segment), at the granularity of one segment slice
    (MI_SEGMENT_SLICE_SIZE = MI_COMMIT_SIZE = MI_MINIMAL_COMMIT_SIZE = 64 KiB, so the liberal and the
    conservative rounding of mi_segment_commit_mask are the identity; an arena block is BLOCK_SLICES slices):
      src/arena.c   : mi_arena_try_alloc_at (after the bitmap search: the claimed block index is an ARGUMENT, the
@@ -337,7 +338,8 @@ Inductive where_ :=
                                                     the coalesced free span around it (used when its commit is refused) *)
   | WNewArena (b0 : N)                           (* a new segment on arena blocks b0 .. *)
   | WNewOs (addr : option N) (unmap_ok : bool).  (* a new segment straight from the OS: mmap refused (None) or placed at
-                                                    slice addr; unmap_ok: the munmap of the failure path is granted *)
+                                                    slice addr; unmap_ok: the munmap of the failure path (header commit
+                                                    refused), or of the segment being freed again unused, is granted *)
 
 (* mi_segment_os_alloc after the memory was obtained with memid.initially_committed = mc:
    Some (mask, kernel, oracle), or None (commit of the header refused; the oracle is returned by the caller) *)
@@ -396,7 +398,35 @@ Definition segment_alloc_os (st : state) (addr nslices : N) (huge commit unmap_o
             None, o2)
     end.
 
-(* mi_segments_page_alloc: find a span; if none (or its commit failed) get a new segment and try again *)
+(* mi_segment_os_free / _mi_arena_free of a segment that is no longer in the state's list *)
+Definition segment_release (c : cfg) (a : arena) (acc : bits) (s : segment) (unmap_ok : bool) (o : list bool)
+  : arena * bits * list bool :=
+  (* _mi_commit_mask_committed_size(mask, size) = (size / MI_COMMIT_MASK_BITS) * popcount = size iff the mask is full *)
+  let all_committed := mask_is_full (sg_commit s) in
+  match sg_mem s with
+  | MemArena b0 nb => arena_free c a acc b0 nb all_committed o
+  | MemOs => (a, if unmap_ok then set_range acc (sg_base s) (sg_nslices s) false else acc, o)
+  end.
+
+Definition segment_free := segment_release.             (* mi_segment_free -> mi_segment_os_free -> _mi_arena_free *)
+
+(* the tail of mi_segments_page_alloc after its retry returned:
+     if (segment->used == 0) { mi_segment_free(segment, false, tld); }
+   the segment (named by its base) that mi_segment_reclaim_or_alloc delivered is freed again when the retry left it
+   without a page, exactly as _mi_segment_page_free frees a segment whose last page went: with its CURRENT commit mask. *)
+Definition free_if_unused (c : cfg) (st : state) (base : N) (unmap_ok : bool) (o : list bool) : state * list bool :=
+  if seg_has_live base (st_live st) then (st, o)
+  else
+    match find_seg base (st_segs st) with
+    | None => (st, o)
+    | Some s =>
+      let '(a', acc', o') := segment_release c (st_arena st) (st_acc st) s unmap_ok o in
+      (mk a' (remove_seg base (st_segs st)) (st_live st) (st_raw st) acc', o')
+    end.
+
+(* mi_segments_page_alloc: find a span; if none (or its commit failed) get a new segment and try again; a new segment
+   that the retry did not use (the retry found a span elsewhere, or failed) is freed before returning -- at every
+   level of the recursion that obtained a segment, the innermost first *)
 Fixpoint segments_page_alloc (c : cfg) (st : state) (n : N) (commit : bool) (ws : list where_) (o : list bool)
   : option (state * option page * list bool) :=
   match ws with
@@ -411,14 +441,22 @@ Fixpoint segments_page_alloc (c : cfg) (st : state) (n : N) (commit : bool) (ws 
     match segment_alloc_arena c st b0 MI_SLICES_PER_SEGMENT false commit o with
     | None => None
     | Some (st', None, o') => Some (st', None, o')
-    | Some (st', Some _, o') => segments_page_alloc c st' n commit rest o'
+    | Some (st', Some s, o') =>
+      match segments_page_alloc c st' n commit rest o' with
+      | None => None
+      | Some (st'', r, o'') => let '(st3, o3) := free_if_unused c st'' (sg_base s) true o'' in Some (st3, r, o3)
+      end
     end
   | WNewOs None _ :: _ => Some (st, None, o)
   | WNewOs (Some addr) unmap_ok :: rest =>
     match segment_alloc_os st addr MI_SLICES_PER_SEGMENT false commit unmap_ok o with
     | None => None
     | Some (st', None, o') => Some (st', None, o')
-    | Some (st', Some _, o') => segments_page_alloc c st' n commit rest o'
+    | Some (st', Some s, o') =>
+      match segments_page_alloc c st' n commit rest o' with
+      | None => None
+      | Some (st'', r, o'') => let '(st3, o3) := free_if_unused c st'' (sg_base s) unmap_ok o'' in Some (st3, r, o3)
+      end
     end
   end.
 
@@ -474,18 +512,7 @@ Definition collect (c : cfg) (st : state) (order : list N) (o : list bool) : sta
   let '(st1, o1) := collect_segs c st order o in arenas_purge_st c st1 o1.
 
 (* ---------------------------------------------------------------- page free *)
-(* mi_segment_os_free / _mi_arena_free of a segment that is no longer in the state's list *)
-Definition segment_release (c : cfg) (a : arena) (acc : bits) (s : segment) (unmap_ok : bool) (o : list bool)
-  : arena * bits * list bool :=
-  (* _mi_commit_mask_committed_size(mask, size) = (size / MI_COMMIT_MASK_BITS) * popcount = size iff the mask is full *)
-  let all_committed := mask_is_full (sg_commit s) in
-  match sg_mem s with
-  | MemArena b0 nb => arena_free c a acc b0 nb all_committed o
-  | MemOs => (a, if unmap_ok then set_range acc (sg_base s) (sg_nslices s) false else acc, o)
-  end.
-
-Definition segment_free := segment_release.             (* mi_segment_free -> mi_segment_os_free -> _mi_arena_free *)
-
+(* (segment_release / segment_free: see above, before mi_segments_page_alloc) *)
 (* _mi_segment_page_free.  [clo, clo+cn) is the coalesced free span that mi_segment_span_free_coalesce builds around
    the page (normal segments); `expired`: a clock test of mi_segment_schedule_purge / mi_segment_try_purge passes *)
 Definition free_page (c : cfg) (st : state) (p : page) (clo cn : N) (expired unmap_ok : bool) (o : list bool)
